@@ -51,8 +51,8 @@ package rlp
 //@   opt fuel=9
 //@   requires len(b) >= 8
 //@   modifies elems(b)
-//@   ensures 1 <= size && size <= 8 && be(b, size) == i
-//@   ensures size == 1 || b[0] != 0
+//@   ensures 1 <= result0 && result0 <= 8 && be(b, result0) == i
+//@   ensures result0 == 1 || b[0] != 0
 //@   use divdiv1(int(i))
 //@   use divdiv2(int(i))
 //@   use divdiv3(int(i))
@@ -110,7 +110,7 @@ package rlp
 //@   props C14 C15
 //@   requires wfStream(s)
 //@   ensures wfStream(s) && s.limited == old(s.limited) && s.remaining <= old(s.remaining) && len(s.stack) == old(len(s.stack))
-//@   ensures err == nil && old(s.limited) ==> uint64(len(buf)) <= old(s.remaining)
+//@   ensures result0 == nil && old(s.limited) ==> uint64(len(buf)) <= old(s.remaining)
 //@   invariant @loop 0: 0 <= n && n <= len(buf) && wfStream(s) && s.limited == old(s.limited) && s.remaining <= old(s.remaining) && len(s.stack) == old(len(s.stack))
 //@   nopanic
 
@@ -126,15 +126,15 @@ package rlp
 //@   props C14 C15
 //@   requires wfStream(s)
 //@   ensures wfStream(s) && s.limited == old(s.limited) && s.remaining <= old(s.remaining) && len(s.stack) == old(len(s.stack))
-//@   ensures err == nil && kind == Byte ==> size == 0 && s.byteval < 128
+//@   ensures result2 == nil && result0 == Byte ==> result1 == 0 && s.byteval < 128
 //@   nopanic
 
 //@ func (*Stream).Kind
 //@   props C14 C15
 //@   requires wfStream(s)
 //@   ensures wfStream(s) && s.limited == old(s.limited) && s.remaining <= old(s.remaining) && len(s.stack) == old(len(s.stack))
-//@   ensures err == nil && s.limited && len(s.stack) == 0 ==> size <= s.remaining
-//@   ensures err == nil && kind == Byte ==> size == 0 && s.byteval < 128
+//@   ensures result2 == nil && s.limited && len(s.stack) == 0 ==> result1 <= s.remaining
+//@   ensures result2 == nil && result0 == Byte ==> result1 == 0 && s.byteval < 128
 //@   nopanic
 
 // a string value never makes the decoder allocate more than the input that is left (top level, limited stream)
